@@ -13,6 +13,7 @@ import (
 	"context"
 	"crypto/sha256"
 	"fmt"
+	"os"
 	"sort"
 	"strconv"
 	"strings"
@@ -397,7 +398,6 @@ func (c *cs) startOp(delta uint64) (string, string) {
 		c.dutyPre[r] = true
 	}
 	op := fmt.Sprintf("start slot=%d pre=%s iok=1", duty.Slot, ids(pids))
-	c.lines = append(c.lines, op)
 	err := c.v.StartDuty(nop, duty)
 	if err == nil {
 		c.dutySlot = int64(duty.Slot)
@@ -429,7 +429,6 @@ func (c *cs) deliver(m *spectypes.SSVMessage) (string, string) {
 	own := bytes.Equal(m.MsgID.GetPubKey(), c.share.ValidatorPubKey) && m.MsgID.GetRoleType() == c.kind.Role
 	pre := c.snapshot()
 	if !own {
-		c.lines = append(c.lines, "foreign")
 		err := c.v.ProcessMessage(nop, d)
 		return "foreign", c.observe(err, false, opCtx{kind: "foreign", preState: pre})
 	}
@@ -456,8 +455,7 @@ func (c *cs) deliver(m *spectypes.SSVMessage) (string, string) {
 			vfacts = c.valFacts(value)
 		}
 		op := fmt.Sprintf("cons id=%d h=%d dec=%d valid=%d %s idec=%d", b2i(idOk), b.Message.Height, b2i(isDec), b2i(valid), vfacts, b2i(idec))
-		c.lines = append(c.lines, op)
-		oc := opCtx{kind: "cons", consH: int64(b.Message.Height), preState: pre}
+			oc := opCtx{kind: "cons", consH: int64(b.Message.Height), preState: pre}
 		if idOk && ((isDec && valid) || idec) {
 			oc.consValue, oc.consCert = value, true
 		}
@@ -478,8 +476,7 @@ func (c *cs) deliver(m *spectypes.SSVMessage) (string, string) {
 			kind, extra = "post", ""
 		}
 		op := fmt.Sprintf("%s s=%d slot=%d sh=%s%s", kind, b.Signer, b.Message.Slot, sh, extra)
-		c.lines = append(c.lines, op)
-		err := c.v.ProcessMessage(nop, d)
+			err := c.v.ProcessMessage(nop, d)
 		return op, c.observe(err, true, opCtx{kind: kind, preState: pre})
 	}
 	return "", ""
@@ -619,7 +616,7 @@ func (s *state) scenario(line string) {
 		}
 		s.cur = c
 		op := fmt.Sprintf("reset role=%s n=%d", kv["role"], n)
-		c.lines = []string{op}
+		c.lines = []string{s.scen}
 		s.run.Emit(s.scen+" | "+op, "ok st="+c.dump())
 		s.run.Tag("role/" + kv["role"])
 	case "start":
@@ -721,13 +718,16 @@ func (s *state) do(line string, script *[]string) {
 	if i := strings.Index(line, " | "); i >= 0 { // replay of an emitted op line: the scenario part drives the harness
 		line = line[:i]
 	}
+	if strings.HasPrefix(line, "reset") {
+		*script = (*script)[:0]
+	}
 	*script = append(*script, line)
 	s.scen = line
-	s.scenario(line)
 	if s.cur != nil {
 		// violations carry the scenario script (replayable), not the derived op lines
 		s.cur.lines = append([]string{}, *script...)
 	}
+	s.scenario(line)
 }
 
 func genCase(s *state, r *hx.Rng) {
@@ -841,5 +841,13 @@ func main() {
 	r := hx.NewRng(run.Seed)
 	for i := 0; i < run.N; i++ {
 		genCase(s, r)
+	}
+	if os.Getenv("VERIF_DEBUG") != "" {
+		var ks []string
+		for k := range run.Distinct {
+			ks = append(ks, k)
+		}
+		sort.Strings(ks)
+		run.Extra["classes"] = ks
 	}
 }
